@@ -335,10 +335,9 @@ int main(int argc, char **argv) {
                 for (int i = 0; i < 4; ++i) for (int j = 0; j < 4; ++j) if (i != j) { e[i][j] = mk::bit(off, b); if (e[i][j]) pat |= 1ull << (i * 4 + j); ++b; }
                 for (int i = 0; i < 4; ++i) for (int j = 0; j < 4; ++j) if (e[i][j] != e[j][i]) sym = false;
                 if (!sym && !vf::thorough() && !vf::replaying()) continue;
-                // one diagonal entry not stored: only with the symmetric off-diagonal patterns (budget)
-                for (int miss = -1; miss < (sym ? 4 : 0); ++miss) { uint64_t q = pat; for (int i = 0; i < 4; ++i) if (i != miss) q |= 1ull << (i * 5); p.push_back(q); }
+                for (int miss = -1; miss < 4; ++miss) { uint64_t q = pat; for (int i = 0; i < 4; ++i) if (i != miss) q |= 1ull << (i * 5); p.push_back(q); }
             }
-            run_patterns(4, p, vf::thorough() ? "all 4096 off-diagonal patterns of 4x4 matrices with full diagonal + the 64 symmetric ones with one diagonal entry not stored" : "the 64 symmetric off-diagonal patterns of 4x4 matrices x {full diagonal, one diagonal entry not stored}");
+            run_patterns(4, p, vf::thorough() ? "all 4096 off-diagonal patterns of 4x4 matrices x {full diagonal, one diagonal entry not stored}" : "the 64 symmetric off-diagonal patterns of 4x4 matrices x {full diagonal, one diagonal entry not stored}");
         }
     }
     if (vf::section("sf")) { run_families(5); run_families(6); }
